@@ -609,7 +609,9 @@ pub fn check(tier: Tier) -> i32 {
         }
     }
     super::c01_c02::cleanup_scratch();
-    let st = selftest(&pals, &types);
+    // the self-test runs the library too: on a tree that panics there it counts as failed (a verdict, if there is one,
+    // takes precedence over it)
+    let st = catch(|| selftest(&pals, &types)).unwrap_or((1, 0));
     let mut ctxs = res.ctxs;
     ctxs.push(ladder_ctx);
     let agg = merge(ctxs);
